@@ -76,6 +76,38 @@ pub fn check(depth: u8, lon: f64, lat: f64, known: Option<(u64, f64, f64)>, part
   if !ok {
     return mk("wrong-cells", "the containing cell and neighbours of it".into(), format!("{} ({})", show, why));
   }
+  if known.is_none() {
+    // the weighted-mean clause from the reference projection alone: grid coordinates (u, v) of the
+    // position in the base cell of the four cells
+    let b0 = decode(depth, res[0].0).0;
+    if res.iter().all(|e| decode(depth, e.0).0 == b0) {
+      let n = nside(depth) as f64;
+      let (bx, by) = base_center(b0);
+      // image of the position closest to the centre of the base cell
+      let (imgs, k) = images(x, y);
+      let mut best = (f64::INFINITY, 0.0, 0.0);
+      for &(xi, yi) in &imgs[..k] {
+        let dxp = wrap8(xi - bx as f64);
+        let d = dxp.abs() + (yi - by as f64).abs();
+        if d < best.0 {
+          best = (d, dxp, yi - by as f64);
+        }
+      }
+      let (a, b) = (best.1 * n, best.2 * n + n);
+      let (u, v) = ((a + b) / 2.0, (b - a) / 2.0);
+      let (mut mu, mut mv) = (0.0, 0.0);
+      for &(o, w) in &res {
+        let (_, i, j) = decode(depth, o);
+        mu += w * (i as f64 + 0.5);
+        mv += w * (j as f64 + 0.5);
+      }
+      part.validated += 1;
+      let tol = 1e-9 + 64.0 * f64::EPSILON * n;
+      if !((mu - u).abs() <= tol && (mv - v).abs() <= tol) {
+        return mk("weighted-mean", format!("weighted mean of the cell centres = ({}, {}) in the grid of base cell {} (the four cells lie in it)", u, v, b0), format!("({}, {}) from {}", mu, mv, show));
+      }
+    }
+  }
   if let Some((c, dx, dy)) = known {
     // weight 1 at the centre
     if dx == 0.5 && dy == 0.5 {
